@@ -45,14 +45,19 @@ CLAIMED = {
              "byte for byte, lists element by element - and stored_iff_nonempty. Lean 4, byte level: file_roundtrip - over one generic "
              "interpreter of the ~60 struct write/read functions (Model.Schema + preamble/block schemas regenerated from the source) a file "
              "laid out as the exporter lays it out is read back as exactly the preamble and raw blocks written, nothing left over, at any "
-             "window offset (C05.runW_refines); built_block_roundtrip composes the two. Plus keys/hint bits = RFC 8618, time offsets (C17), "
+             "window offset (C05.runW_refines); built_file_roundtrip composes the two WITHOUT a per-input side condition: every block built from "
+             "records whose members fit the C++ widths lies in the round-trip domain (build_conforms: slot-by-slot conformance of the 14 block "
+             "structs + value bounds carried through all builder steps + index bounds from referential closure). record_times_recovered: every "
+             "stored time of every built block is written as an offset < 2^63 from which add_time_offset recovers it exactly (the builder's "
+             "time members refine the C17 model); address_event_totals and block_statistics_latest: counts and statistics for every record "
+             "sequence. Plus keys/hint bits = RFC 8618, time offsets (C17), "
              "encoder (C06), exporter conservation (C12). Tie to the code on every session: model block bytes = library block bytes (bld), "
              "model reader dump = library reader dump and model writer bytes = library bytes (blk), Lean projection = the records the library "
              "reader returns (prjd); and the three-way differential with the independent Lean RFC 8618 reader and the reference expectation.",
-        note="Partial proof: address-event totals and per-block statistics are decided by correspondence (reference exporter), and the "
-             "composition byte level -> record level passes through the executable domain check conformsB (evaluated on every built block) "
-             "rather than a proof that every built block conforms. Trusted: Model/Builder.lean, Model/Resolve.lean, Model/Structs.lean "
-             "(hand-written; tied by bld/blk/prjd correspondences), RFC transcription, tools/refexp.py + cdnsgen.py, harness/file.cpp.",
+        note="What is proved is about the models: Model/Builder.lean, Model/Resolve.lean, Model/Structs.lean are hand-written and tied to the "
+             "code by the bld/blk/prjd correspondences on every session; the exporter's choice of block boundaries is C12's abstract model. "
+             "Bounds of the theorems' domain: members within the C++ member widths, < 2^64 records, <= 2^32 entries per table, representable "
+             "times. Trusted besides: RFC transcription, tools/refexp.py + cdnsgen.py, harness/file.cpp.",
         technique="Lean 4 proof (record-level export->read over builder + resolver models; generic schema round trip at byte level) + byte-exact model/implementation correspondence + three-way differential", design="§4 C01"),
     "C02": dict(
         text="Lean 4, framing (exporter model, every call history): an output without blocks gets zero bytes, otherwise header once + blocks + "
